@@ -8,6 +8,7 @@ JOBS = min(int(os.environ.get("VERIF_JOBS", "12")), 12)
 GEN = """SPECIFICATION {spec}
 CONSTANTS Tenants = {tenants}
           Main = "t1"
+          OpTenants = {optenants}
           Procs = {procs}
           Unlimited = 1000000
           LegacyUpdates = {legacy_updates}
@@ -39,7 +40,7 @@ CHECK_DEADLOCK FALSE
 # key separator ':' ("t10:..." < "t1:..." < "t1z:..."): scans, recovery and counters of one tenant next to the others' keys
 SIBLINGS = '{"t1", "t10", "t1z"}'
 
-DEFAULTS = dict(skip_update="FALSE", edgeids="{1}", createvals="{0, 1}", seedmain="FALSE", tenants='{"t1"}', spec="Spec", procs="{1}", legacy_updates="FALSE", legacy_recover="FALSE", race="FALSE", mode="seq",
+DEFAULTS = dict(optenants='{"t1"}', skip_update="FALSE", edgeids="{1}", createvals="{0, 1}", seedmain="FALSE", tenants='{"t1"}', spec="Spec", procs="{1}", legacy_updates="FALSE", legacy_recover="FALSE", race="FALSE", mode="seq",
                 maxops=3, maxhist=9, nodeids="{1, 2}", labels="LS2", ends="Ends1", quotas="{1}", kinds='{"n"}',
                 crash="TRUE", view="VIEW ViewSeq", constraint="CONSTRAINT Bound", emit="", invs="", props="")
 
